@@ -377,3 +377,35 @@ func b2i(b bool) int64 {
 	}
 	return 0
 }
+
+// Rebuild re-creates real objects for the ops of a replay file (descriptors only). Ids are re-assigned
+// (the structure -- heights, keys, suffrage heights, operations -- is what matters).
+func Rebuild(w *World, ops []Op) []Op {
+	out := make([]Op, len(ops))
+	for i, op := range ops {
+		out[i] = op
+		if op.T != "W" || op.B == nil {
+			continue
+		}
+		b := op.B
+		sh := BlockShape{H: b.H, Known: b.Known}
+		for _, s := range b.States {
+			sh.Keys = append(sh.Keys, s.Key)
+			sh.KeyOps = append(sh.KeyOps, nil)
+		}
+		if b.Suf != nil {
+			sh.Suf, sh.SH = true, b.Suf.SH
+		}
+		sh.Pol = b.Pol != nil
+		switch {
+		case len(sh.Keys) > 0:
+			sh.KeyOps[0] = b.InState
+		case sh.Suf:
+			sh.SufOps = b.InState
+		case sh.Pol:
+			sh.PolOps = b.InState
+		}
+		out[i].B = w.NewBlock(sh)
+	}
+	return out
+}
